@@ -63,7 +63,8 @@ def gen_layout(rng, members, feature=None):
             parts.append(list(range(prev, c)))
             prev = c
         lay["folders"] = parts
-        lay["coders"] = [rng.choice(["copy", "lzma2", "lzma", "deflate", "bzip2", "delta+lzma2"]) for _ in parts]
+        lay["coders"] = [rng.choice(["copy", "lzma2", "lzma", "deflate", "bzip2", "delta+lzma2", "deflate>lzma2",
+                                     "lzma2>deflate", "bzip2>copy"]) for _ in parts]
     lay["crc"] = rng.choice(["substream", "substream", "folder", "none"])
     lay["pack_crc"] = rng.random() < 0.3
     lay["header"] = rng.choice(["raw", "raw", "lzma"])
@@ -77,7 +78,12 @@ def gen_layout(rng, members, feature=None):
         lay["coders"] = [rng.choice(["copy", "lzma2", "deflate"]) for _ in range(nd)]
         lay["no_substreams"] = True
     if feature == "partial_crc":
-        lay["crc"] = rng.choice(["partial", "folder-partial"])
+        lay["crc"] = rng.choice(["partial", "partial", "folder-partial"])
+        if nd >= 3 and rng.random() < 0.7:
+            # a multi-member folder ahead of another folder: the defined-bits of later folders depend on correct indexing
+            k = rng.randrange(2, nd)
+            lay["folders"] = [list(range(0, k)), list(range(k, nd))]
+            lay["coders"] = [rng.choice(["copy", "lzma2", "deflate"]) for _ in range(2)]
     if feature == "zero_folder" and nd:
         lay["zero_folder_after"] = rng.randrange(len(lay["folders"]))
     if feature == "partial_vectors":
@@ -158,7 +164,7 @@ def sandbox_read(arg):
     return ["ok", r[1], {k: [b.hex() for b in v] for k, v in r[2].items()}]
 
 
-def compare(members, res):
+def compare(members, res, refcrcs=None):
     """returns None if py7zr's reading equals the logical archive, else a description"""
     if res[0] != "ok":
         return "reading raises %s: %s" % (res[1], res[2] if len(res) > 2 else "")
@@ -175,6 +181,9 @@ def compare(members, res):
         if m["kind"] == "file":
             if x[4] != len(m["data"]):
                 return "member %r size %r != %d" % (m["name"], x[4], len(m["data"]))
+            # a CRC py7zr does not report (None) is not a misreading; a CRC it reports must be the stored one
+            if refcrcs is not None and x[5] is not None and refcrcs.get(m["name"], "absent") != "absent" and x[5] != refcrcs[m["name"]]:
+                return "member %r is listed with CRC %r, the archive stores %r" % (m["name"], x[5], refcrcs[m["name"]])
             d = got.get(m["name"])
             if d is None:
                 return "member %r is not delivered" % m["name"]
@@ -261,7 +270,9 @@ def one_case(ctx, rep, rng, idx):
         res = tuple(v) if v[0] == "err" else ("ok", v[1], {k: [bytes.fromhex(b) for b in bs] for k, bs in v[2].items()})
     else:
         res = ("err", out["status"], "reading does not return (%s)" % out["status"])
-    bad = compare(members, res)
+    names = [m["name"] for m in members]
+    refcrcs = {x["name"]: x["crc"] for x in ref["members"] if x["kind"] == "file" and names.count(x["name"]) == 1}
+    bad = compare(members, res, refcrcs)
     if bad:
         # primary feature = the first known-problematic layout feature present (one finding per feature class)
         primary = next((f for f in PRIORITY if f in feats), "plain")
